@@ -144,12 +144,23 @@ structure Sim (k : Kind) (ρ : Nat → Nat) (M M' : PM) : Prop where
   mstate : ∀ m ∈ M.models, alookup (ρ m) M'.mstate = alookup m M.mstate
   ctx : k.locked = true → k.nested = false →
     ∀ m ∈ M.models, lookupD (ρ m) M'.ctx = (lookupD m M.ctx).map ρ
-  graphs : k.graph = true → ∀ m ∈ M.models, alookup (ρ m) M'.graphs = alookup m M.graphs
+  /-- presence only: the value (what the graph shows) is never read by an event, and differs
+      legitimately (an async original shows no active state after a transition, its copy does) -/
+  graphs : k.graph = true → ∀ m ∈ M.models, (alookup (ρ m) M'.graphs).isNone = (alookup m M.graphs).isNone
   qdict : k.qmodel = true → ∀ m ∈ M.models, (alookup (ρ m) M'.qdict).isNone = (alookup m M.qdict).isNone
 
 theorem agree_aset {β} (ρ : Nat → Nat) (hρ : Inj ρ) (S : List Nat) (T T' : Tab β) (m : Nat) (v : β)
     (h : ∀ x ∈ S, alookup (ρ x) T' = alookup x T) :
     ∀ x ∈ S, alookup (ρ x) (aset (ρ m) v T') = alookup x (aset m v T) := by
+  intro x hx
+  by_cases e : x = m
+  · subst e; rw [alookup_aset_self', alookup_aset_self']
+  · have : ρ x ≠ ρ m := fun e' => e (hρ _ _ e')
+    rw [alookup_aset_ne' _ _ _ this, alookup_aset_ne' _ _ _ e]; exact h x hx
+
+theorem agree_aset_isNone {β} (ρ : Nat → Nat) (hρ : Inj ρ) (S : List Nat) (T T' : Tab β) (m : Nat) (v : β)
+    (h : ∀ x ∈ S, (alookup (ρ x) T').isNone = (alookup x T).isNone) :
+    ∀ x ∈ S, (alookup (ρ x) (aset (ρ m) v T')).isNone = (alookup x (aset m v T)).isNone := by
   intro x hx
   by_cases e : x = m
   · subst e; rw [alookup_aset_self', alookup_aset_self']
@@ -214,7 +225,7 @@ theorem sim_fire {k ρ M M'} (δ : Delta) (hρ : Inj ρ) (h : Sim k ρ M M') (cs
           | false =>
             simp only [Bool.false_eq_true, if_false]
             exact ⟨rfl, ⟨h.models, h.mctx, agree_aset ρ hρ _ _ _ m dst h.mstate, h.ctx,
-              fun _ => agree_aset ρ hρ _ _ _ m dst (h.graphs hg), h.qdict⟩⟩
+              fun _ => agree_aset_isNone ρ hρ _ _ _ m _ (h.graphs hg), h.qdict⟩⟩
   | false =>
     simp only [Bool.false_and, Bool.false_eq_true, if_false]
     cases hd : δ ep (M.stateOf m) ev with
@@ -233,7 +244,7 @@ theorem sim_fire {k ρ M M'} (δ : Delta) (hρ : Inj ρ) (h : Sim k ρ M M') (cs
         | false =>
           simp only [Bool.false_eq_true, if_false]
           exact ⟨rfl, ⟨h.models, h.mctx, agree_aset ρ hρ _ _ _ m dst h.mstate, h.ctx,
-            fun _ => agree_aset ρ hρ _ _ _ m dst (h.graphs hg), h.qdict⟩⟩
+            fun _ => agree_aset_isNone ρ hρ _ _ _ m _ (h.graphs hg), h.qdict⟩⟩
 
 theorem sim_trigger {k ρ M M'} (δ : Delta) (hρ : Inj ρ) (h : Sim k ρ M M') (held : List Nat) (ep m ev : Nat)
     (hm : m ∈ M.models) :
@@ -250,7 +261,7 @@ theorem sim_trigger {k ρ M M'} (δ : Delta) (hρ : Inj ρ) (h : Sim k ρ M M') 
 /-! ### regeneration of graphs, steps, runs -/
 
 theorem alookup_regen (M : PM) (x : Nat) : ∀ (ms : List Nat) (g : Tab Nat),
-    alookup x (regenGraphs M ms g) = if x ∈ ms then some (M.stateOf x) else alookup x g
+    alookup x (regenGraphs M ms g) = if x ∈ ms then some (M.stateOf x + 1) else alookup x g
   | [], g => by simp [regenGraphs]
   | y :: r, g => by
     rw [regenGraphs, alookup_regen M x r]
@@ -278,7 +289,7 @@ theorem sim_step {k ρ M M'} (δ : Delta) (hρ : Inj ρ) (h : Sim k ρ M M') (he
       have hm' : m ∈ M.models := hm
       rw [alookup_regen, alookup_regen, h.models]
       have : ρ m ∈ M.models.map ρ := List.mem_map.mpr ⟨m, hm', rfl⟩
-      simp only [this, hm', if_true, stateOf_sim h m hm']
+      simp only [this, hm', if_true, Option.isNone_some]
 
 theorem fire_fields (k : Kind) (δ : Delta) (M : PM) (cs : List Nat) (ep m ev : Nat) :
     (fire k δ M cs ep m ev).1.models = M.models ∧ (fire k δ M cs ep m ev).1.mctx = M.mctx ∧
@@ -318,10 +329,10 @@ theorem sim_run {k ρ} (δ : Delta) (hρ : Inj ρ) (held : List Nat) :
 
 /-! ### the round trip -/
 
-/-- a graph machine's graphs show each registered model's current state (established by
-    `add_model`, kept by `_change_state`, `add_states`, `add_transition`) -/
+/-- every registered model of a graph machine has a graph (established by `add_model`; nothing
+    ever deletes one) -/
 def WF (k : Kind) (M : PM) : Prop :=
-  k.graph = true → ∀ m ∈ M.models, alookup m M.graphs = some (M.stateOf m)
+  k.graph = true → ∀ m ∈ M.models, (alookup m M.graphs).isSome = true
 
 theorem roundtrip_mstate (k : Kind) (ρ : Nat → Nat) (M : PM) :
     (roundtrip k ρ M).mstate = M.mstate.map fun e => (ρ e.1, e.2) := by
@@ -359,7 +370,7 @@ theorem locked_ctx (k : Kind) (hg : k.graph = false) (hl : k.locked = true) (ρ 
 
 /-- graph classes: one fresh graph per model under the new id, showing the model's state -/
 theorem graph_graphs (k : Kind) (hg : k.graph = true) (ρ : Nat → Nat) (hρ : Inj ρ) (M : PM) :
-    (roundtrip k ρ M).graphs = M.models.map fun m => (ρ m, M.stateOf m) := by
+    (roundtrip k ρ M).graphs = M.models.map fun m => (ρ m, M.stateOf m + 1) := by
   unfold roundtrip setstate getstate
   simp only [hg, if_true, graphSetstate, transport, graphGetstate, defaultGetstate, defaultSetstate,
     List.map_map]
@@ -390,8 +401,11 @@ theorem roundtrip_sim (k : Kind) (hk : k.rekeys = true) (ρ : Nat → Nat) (hρ 
     rfl
   graphs := by
     intro hg m hm
-    rw [graph_graphs k hg ρ hρ M, alookup_of_list ρ hρ (fun x => M.stateOf x) m M.models hm]
-    exact (hwf hg m hm).symm
+    rw [graph_graphs k hg ρ hρ M, alookup_of_list ρ hρ (fun x => M.stateOf x + 1) m M.models hm]
+    have := hwf hg m hm
+    cases hl : alookup m M.graphs with
+    | none => rw [hl] at this; cases this
+    | some _ => rfl
   qdict := by
     intro hq
     simp [Kind.rekeys, hq] at hk
